@@ -323,12 +323,8 @@ fn parse_id(raw: &RawResp, name: &str) -> Result<Uuid, String> {
         None => Err(format!("missing {name}")),
         Some(v) => {
             let s = std::str::from_utf8(v).map_err(|_| format!("{name} not text"))?;
-            // the canonical hyphenated lower-case form is what clients parse
-            let u = Uuid::parse_str(s).map_err(|_| format!("{name} unparsable: {s}"))?;
-            if u.to_string() != s {
-                return Err(format!("{name} not in canonical form: {s}"));
-            }
-            Ok(u)
+            // any spelling a client's uuid parser accepts carries the id
+            Uuid::parse_str(s.trim()).map_err(|_| format!("{name} unparsable: {s}"))
         }
     }
 }
